@@ -55,6 +55,13 @@ fn value_to_datetime(
     let parsed = if let Some(value) = value.as_str() {
         parse_string(value)?
     } else if let Ok(value) = f64::try_from(value.clone()) {
+        // timestamps far out of range are not expected by the conversion below
+        if !(value.abs() < 1e12) {
+            return Err(Error::new(
+                ErrorKind::InvalidOperation,
+                "date out of range",
+            ));
+        }
         let timestamp =
             Timestamp::from_nanosecond((value * 1e9) as i128).map_err(date_out_of_range)?;
         ParsedDateTime::Zoned(timestamp.to_zoned(TimeZone::UTC))
